@@ -205,6 +205,8 @@ impl source::Fetch for Pinned {
         // https://github.com/FuelLabs/sway/issues/7075
         {
             let _guard = lock.write()?;
+            #[cfg(fuellabs_sway_verif)]
+            sway_types::verif_hooks::io_point("fetch.locked", &|| String::new())?;
             if !repo_path.exists() {
                 println_action_green(
                     "Fetching",
@@ -521,6 +523,8 @@ pub fn fetch(fetch_id: u64, name: &str, pinned: &Pinned) -> Result<PathBuf> {
         // Change HEAD to point to the pinned commit.
         let id = git2::Oid::from_str(&pinned.commit_hash)?;
         repo.set_head_detached(id)?;
+        #[cfg(fuellabs_sway_verif)]
+        sway_types::verif_hooks::io_point("fetch.head_set", &|| String::new())?;
 
         // If the directory exists, remove it. Note that we already check for an existing,
         // cached checkout directory for re-use prior to reaching the `fetch` function.
@@ -528,11 +532,15 @@ pub fn fetch(fetch_id: u64, name: &str, pinned: &Pinned) -> Result<PathBuf> {
             let _ = fs::remove_dir_all(&path);
         }
         fs::create_dir_all(&path)?;
+        #[cfg(fuellabs_sway_verif)]
+        sway_types::verif_hooks::io_point("fetch.dir_created", &|| String::new())?;
 
         // Checkout HEAD to the target directory.
         let mut checkout = git2::build::CheckoutBuilder::new();
         checkout.force().target_dir(&path);
         repo.checkout_head(Some(&mut checkout))?;
+        #[cfg(fuellabs_sway_verif)]
+        sway_types::verif_hooks::io_point("fetch.checked_out", &|| String::new())?;
 
         // Fetch HEAD time and create an index
         let current_head = repo.revparse_single("HEAD")?;
@@ -551,6 +559,8 @@ pub fn fetch(fetch_id: u64, name: &str, pinned: &Pinned) -> Result<PathBuf> {
             path.join(".forc_index"),
             serde_json::to_string(&source_index)?,
         )?;
+        #[cfg(fuellabs_sway_verif)]
+        sway_types::verif_hooks::io_point("fetch.index_written", &|| String::new())?;
         Ok(())
     })?;
     Ok(path)
